@@ -280,6 +280,9 @@ fn straggler_inner(n: usize, ctx: &WorkerCtx) -> ExecResult {
         nw.w.gates.set_active(&[]);
         let results: Arc<Mutex<Vec<(usize, CallResult)>>> = Arc::new(Mutex::new(vec![]));
         let probe = { let r = results.clone(); move || r.lock().unwrap().len() as u64 };
+        // the node also runs ordinary processes: replies are for calls, never for them
+        let bystanders: crate::procs::Log = Arc::new(Mutex::new(vec![]));
+        for i in 0..3 { let _ = nw.node.spawn(crate::procs::Rec { name: format!("bystander{}", i), log: bystanders.clone() }).await; }
         let mut seen = 0usize;
         let mut first_reply_to: Option<RefVal> = None;
         for k in 0..=n {
@@ -333,6 +336,8 @@ fn straggler_inner(n: usize, ctx: &WorkerCtx) -> ExecResult {
         }
         let left = nw.node.pending_rpc_count();
         if left != 0 { res.violations.push(("bookkeeping remains after every call has returned".into(), json!({"pending": left, "calls": n + 1}))); }
+        let stray = bystanders.lock().unwrap().clone();
+        if !stray.is_empty() { res.violations.push(("a reply to a call was handed to a process of the node".into(), json!({"received_by_processes": stray.iter().take(5).collect::<Vec<_>>()}))); }
         res.steps = n as u64 + 1;
         res.outcome = format!("straggler {} calls", n + 1);
         res
@@ -404,6 +409,67 @@ fn prestart_straggler_exec(creation: &u32, ctx: &WorkerCtx) -> ExecResult {
     });
     crate::world::set_epmd_creation(None);
     out
+}
+
+/// Bytes inside a frame are never taken for a frame. Two calls wait; the peer sends something that *contains* a complete
+/// reply frame for the second call (answer 777): (0) inside the binary of the first call's reply, which stalls right before
+/// it for longer than the I/O timeout; (1) inside a frame that starts with another marker than pass-through; (2) inside an
+/// undecodable pass-through frame. The real reply (answer 2) follows. The second call never returns 777.
+fn smuggle_exec(kind: &usize, ctx: &WorkerCtx) -> ExecResult {
+    let kind = *kind;
+    run_rt(async move {
+        let mut res = ExecResult::default();
+        let mut nw = match node_world(ctx, flags_default()).await { Ok(x) => x, Err(e) => { res.violations.push(("could not establish the connection under a conforming peer".into(), json!({"error": e}))); return res; } };
+        nw.w.gates.set_active(&[]);
+        let results: Arc<Mutex<Vec<(i64, CallResult)>>> = Arc::new(Mutex::new(vec![]));
+        let probe = { let r = results.clone(); move || r.lock().unwrap().len() as u64 };
+        let mut tos: Vec<RefVal> = vec![];
+        for k in [1i64, 2] {
+            let (node, results_t) = (nw.node.clone(), results.clone());
+            tokio::spawn(async move {
+                let r = node.rpc_call_raw_with_timeout(PEER_NAME, "m", "f", vec![OwnedTerm::Integer(k)], Duration::from_secs(100)).await;
+                results_t.lock().unwrap().push((k, match r { Ok(v) => CallResult::Ok(format!("{:?}", v)), Err(edp_node::Error::RpcTimeout(_)) => CallResult::Timeout, Err(edp_node::Error::RpcCancelled) => CallResult::Cancelled, Err(e) => CallResult::Other(e.to_string()) }));
+            });
+            nw.w.settle(&mut nw.peer, &probe).await;
+            let (frames, _) = nw.peer.dist_frames();
+            let mut to = None;
+            for f in &frames { if let Ok(m) = read_pass_through(f) { if let Some((from, kk)) = marker_of_request(&m) { if kk == k { to = Some(from); } } } }
+            match to { Some(t) => tos.push(t), None => { res.violations.push(("request of a call never reached the peer".into(), json!({"call": k}))); return res; } }
+        }
+        let inner = reply_frame(&tos[1], 777);
+        match kind {
+            0 => {
+                // reply to call 1: {rex, {answer, 1}} is what a reply looks like; here the answer carries a binary with the inner frame
+                let mut blob = vec![0u8; 24]; blob.extend_from_slice(&inner); blob.extend_from_slice(&[0u8; 8]);
+                let m = DistMsg { control: RefVal::Tuple(vec![RefVal::int(2), RefVal::atom(""), tos[0].clone()]), payload: Some(RefVal::Tuple(vec![RefVal::atom("rex"), RefVal::Tuple(vec![RefVal::atom("answer"), RefVal::binary(&blob)])])) };
+                let f = frame(&write_pass_through(&m), 4);
+                let at = f.windows(inner.len()).position(|w| w == &inner[..]).unwrap_or(f.len() / 2);
+                nw.peer.send(&f[..at]);
+                nw.w.settle(&mut nw.peer, &probe).await;
+                tokio::time::advance(Duration::from_secs(25)).await;
+                nw.w.settle(&mut nw.peer, &probe).await;
+                nw.peer.send(&f[at..]);
+            }
+            1 => { let mut body = vec![131u8]; body.extend_from_slice(&inner); body.extend_from_slice(&[0u8; 4]); nw.peer.send(&frame(&body, 4)); }
+            _ => { let mut body = vec![112u8, 131, 200]; body.extend_from_slice(&inner); nw.peer.send(&frame(&body, 4)); }
+        }
+        nw.w.settle(&mut nw.peer, &probe).await;
+        nw.peer.send(&reply_frame(&tos[1], 2));
+        nw.w.settle(&mut nw.peer, &probe).await;
+        tokio::time::advance(Duration::from_secs(120)).await;
+        nw.w.settle(&mut nw.peer, &probe).await;
+        let got = results.lock().unwrap().clone();
+        let second = got.iter().find(|x| x.0 == 2).map(|x| x.1.clone());
+        let smuggled = CallResult::Ok(format!("{:?}", expected_reply_term(777)));
+        let what = ["bytes inside a reply that stalled past the I/O timeout", "bytes inside a frame with another marker", "bytes inside an undecodable frame"][kind % 3];
+        if second.as_ref() == Some(&smuggled) || second.is_none() {
+            res.violations.push(("a call returned something other than the reply addressed to it".into(), json!({"what": what, "second_call_returned": format!("{:?}", second), "the_peer_sent_it": "answer 2"})));
+        }
+        if nw.node.pending_rpc_count() != 0 { res.violations.push(("bookkeeping remains after every call has returned".into(), json!({"pending": nw.node.pending_rpc_count()}))); }
+        res.steps = 3;
+        res.outcome = format!("smuggle {}", kind);
+        res
+    })
 }
 
 /// Two remote nodes whose names stand in a prefix relation (`peer@127.0.0.1` and `peer@127.0.0.1x`): a call to one of them
@@ -581,13 +647,15 @@ pub fn run(rep: &Report) -> Value {
     let st_s = crate::explore::for_all(rep, "late reply of a finished call re-sent before each later reply", &lens, |n, ctx| straggler_exec(n, ctx));
     let crs = vec![1u32, 2, 77];
     let st_ps = crate::explore::for_all(rep, "a call made before Node::start, its late reply after a call made afterwards", &crs, |n, ctx| prestart_straggler_exec(n, ctx));
+    let sm = vec![0usize, 1, 2];
+    let st_sm = crate::explore::for_all(rep, "a reply frame for a waiting call hidden inside another frame", &sm, |n, ctx| smuggle_exec(n, ctx));
     let pn = vec![0usize, 1];
     let st_pn = crate::explore::for_all(rep, "two remote nodes with names in a prefix relation, one connection going down", &pn, |n, ctx| prefix_neighbour_exec(n, ctx));
     let nf = vec![0usize, 1, 2, 3];
     let st_fn = crate::explore::for_all(rep, "calls failing on another connection between waiting calls", &nf, |n, ctx| failing_neighbour_exec(n, ctx));
     let sizes = vec![(24usize, false), (24, true)];
     let st_st = crate::explore::for_all(rep, "peer stops reading under an oversized request, second caller queued behind it", &sizes, |n, ctx| stalled_rpc_exec(n, ctx));
-    let states: u64 = all.iter().map(|(_, s)| s.executions).sum::<u64>() + st_s.executions + st_st.executions + st_fn.executions + st_ps.executions + st_pn.executions;
+    let states: u64 = all.iter().map(|(_, s)| s.executions).sum::<u64>() + st_s.executions + st_st.executions + st_fn.executions + st_ps.executions + st_pn.executions + st_sm.executions;
     let transitions: u64 = all.iter().map(|(_, s)| s.transitions).sum::<u64>() + st_s.transitions;
     let mut samples: Vec<Value> = vec![];
     for (_, s) in &all { samples.extend(s.samples.iter().take(2).cloned()); }
